@@ -603,8 +603,46 @@ def rule_reader_discipline(c, rule, skip=("bls_batch_verify",)):
     return n_sites
 
 
+def rule_affine_casts(c, rule):
+    """A glue point (E1/E2, Jacobian in general) may be reinterpreted as a BLST affine point only where the
+    object is affine by construction: inside the on-curve checkers (documented affine parameter) or on a local
+    just written by E?_to_affine.  Anything else silently drops the Z coordinate."""
+    n = 0
+    for fn in sorted(c.p.funcs):
+        try:
+            g = c.p.cfg(fn)
+        except cast.Unsupported:
+            continue
+        for node in g.nodes:
+            if node.expr is None:
+                continue
+            for x in walk(node.expr):
+                if x.get("kind") != "CStyleCastExpr":
+                    continue
+                t = x.get("type", {}).get("qualType", "")
+                if "POINTonE1_affine" not in t and "POINTonE2_affine" not in t:
+                    continue
+                inner = strip(x["inner"][-1])
+                it = inner.get("type", {}).get("qualType", "")
+                if not ("E1" in it or "E2" in it) or "affine" in it:
+                    continue  # array-of-pointer conversions of already affine data
+                n += 1
+                base = base_name(g.r(inner))
+                ok = fn in ("E1_affine_on_curve", "E2_affine_on_curve")
+                if not ok:
+                    for m, call in g.calls():
+                        if callee_name(call) in ("E1_to_affine", "E2_to_affine") and base_name(g.r(call["inner"][1])) == base and g.dominates(m, node):
+                            ok = True
+                c.check(ok, rule, "%s/affine-cast:%s" % (fn, base), c.pos(g, node), "affine reinterpretation of an object that is affine by construction",
+                        "`%s` (a general, possibly Jacobian point) is reinterpreted as an affine point in %s without a preceding conversion: results are wrong whenever Z ≠ 1 (e.g. for the output of a previous addition)" % (g.r(inner), fn))
+    c.stats["affine_casts"] = n
+    return n
+
+
 def rule_C04(c):
     c.floor("C04.R3", 14)
+    c.floor("C04.R5", 2)
+    rule_affine_casts(c, "C04.R5")
     n = rule_reader_discipline(c, "C04.R3")
     c.stats["reader_call_sites"] = n
     # E1_sum_vector_byte: sum over exactly the parsed points, written only on success
